@@ -2,3 +2,4 @@ import Driver.Region
 import Driver.Glyph
 import Driver.Matrix
 import Driver.Composite
+import Driver.CompRegion
